@@ -293,7 +293,7 @@ var StructTypes = []reflect.Type{
 	T(CN1{}), T(CN2{}), T(NMapHolder{}),
 	T(ManyF{}), T(ManyL{}),
 	T(Node{}), T(FNode{}), T(Ping{}), T(Pong{}), T(ENode{}), T(DeepNil{}),
-	T(MapAndLists{}), T(Wrap{}), T(WrapList{}), T(PtrTime{}), T(Named{}), T(SelfAny{}), T(SelfAnyList{}), T(PtrConts{}), T(MutA{}), T(MutB{}), T(MpKeyStruct{}), T(MutGraph{}), T(NonASCII{}), T(RecConts{}), T(AmpTop{}), T(AmpN{}), T(FloatMix{}),
+	T(MapAndLists{}), T(Wrap{}), T(WrapList{}), T(PtrTime{}), T(Named{}), T(SelfAny{}), T(SelfAnyList{}), T(PtrConts{}), T(MutA{}), T(MutB{}), T(MpKeyStruct{}), T(MutGraph{}), T(NonASCII{}), T(RecConts{}), T(AmpTop{}), T(AmpN{}), T(FloatMix{}), T(Forest{}),
 }
 
 // TypeByName finds a zoo struct type.
@@ -586,6 +586,14 @@ type RecConts struct {
 	T Tree
 	J JMap
 	N int32
+}
+
+// Forest: slices and maps OF recursive container types (their list type names are derived entries of
+// the extracted maps).
+type Forest struct {
+	Trees []Tree
+	Js    []JMap
+	M     map[string]Tree
 }
 
 // AmpTop / AmpN: every element of a list refers back to the list (queued destinations).
